@@ -323,6 +323,17 @@ def combo_stream(ctx, count):
             dc = DataCombination([list(x) for x in c])
             imp = {"keys": [list(k) for k in dc.keys()], "values": [list(v) for v in dc.values()],
                    "items": [[list(k), list(v)] for k, v in dc.items()]}
+            # the accessors are pure: a second pass (also after a pass that was left early, and
+            # interleaved with the other accessors) must enumerate the same product again
+            it = iter(dc.values())
+            for _ in range(ctx.rng.randint(0, 2)):
+                next(it, None)
+            it2 = iter(dc.keys())
+            next(it2, None)
+            again = {"keys": [list(k) for k in dc.keys()], "values": [list(v) for v in dc.values()],
+                     "items": [[list(k), list(v)] for k, v in dc.items()]}
+            if again != imp:
+                imp = {"first_pass": imp, "second_pass": again}
         except Exception as e:
             imp = "err:%r" % e
         if "ok" not in r or imp != r["ok"]:
